@@ -83,6 +83,11 @@ impl AsRef<HashMap<String, String>> for Headers {
     }
 }
 
+/// Verification harnesses with access to this module's private items (only under `cargo kani`).
+#[cfg(kani)]
+#[path = "/verif/kani/proto/in_headers.rs"]
+pub(crate) mod verif_kani;
+
 #[cfg(test)]
 mod tests {
     use super::*;
